@@ -526,8 +526,8 @@ def same_objects(a, b):
 def other_routes(ctx, spec, ws, obj_cls, rules, objs, problems):
     """the other public ways to read the same sheet must give the objects read_table gave (those were
     just compared with the reference binding)"""
-    route = ("iter_table", "reader", "mixin", "map", "mixin_map", "multi", "mixin_child", "multi", "none")[
-        ctx.counters.get("objects_checked", 0) % 9]
+    route = ("iter_table", "reader", "mixin", "map", "mixin_map", "multi", "mixin_child", "multi", "none",
+             "shared_rules", "slots")[ctx.counters.get("objects_checked", 0) % 11]
     kw = dict(stop_on=spec['stop_on'], ladder_format=spec['ladder'])
     defaults = spec['stop_on'] == "blank all" and not spec['ladder']
     try:
@@ -536,6 +536,29 @@ def other_routes(ctx, spec, ws, obj_cls, rules, objs, problems):
         elif route == "reader":
             reader = X.XlsTableReader(X.XlsObjReadRules(obj_cls, rules))
             got = [x for (x,) in reader.iter_table(ws, **kw)]
+        elif route == "shared_rules":
+            # ONE rules object serves two readers; the other reader reads a sheet with the same columns in the
+            # opposite order, and the two sheets are read in turns (zip over the two generators)
+            rr = X.XlsObjReadRules(obj_cls, rules)
+            it1 = X.XlsTableReader(rr).iter_table(ws, **kw)
+            it2 = X.XlsTableReader(rr).iter_table(WS("other", [row[::-1] for row in spec['grid']]), **kw)
+            got, other_alive = [], True
+            while True:
+                try:
+                    got.append(next(it1)[0])
+                except StopIteration:
+                    break
+                if other_alive:
+                    try:
+                        next(it2)
+                        ctx.count("rows_of_another_sheet_read_in_between_with_the_same_rules_object")
+                    except Exception:     # (StopIteration too: the mirrored sheet may be shorter or unreadable)
+                        other_alive = False
+        elif route == "slots":
+            # the application's class keeps its attributes in slots
+            slotted = type("SlotObj", (obj_cls,), {"__slots__": tuple(Obj._ATTRS)})
+            got = X.read_table(ws, slotted, rules, **kw)
+            ctx.count("objects_of_a_class_with_slots", len(got))
         elif route == "multi":
             # several objects per row: one reads the ranged attribute, the other the remaining columns; together
             # they know the same columns as the single object, so they must read the same values from the same cells
